@@ -425,7 +425,7 @@ def _init_values(prog, cn):
             continue
         # a constructor that writes a fresh file and then loads it (on-disk creation): a value unpacked from slot i is the
         # value packed at slot i of the same format on that path
-        packs = [e.args[0] for e in p.events if e.kind == "call" and e.name == "write" and e.args and e.args[0][0] == "pack"]
+        packs = [a for e in p.events if e.kind == "call" and e.name in ("write", "pwrite", "write_bytes") for a in e.args if a[0] == "pack"]
         for (b, n), v in p.fields.items():
             if b == SELF:
                 v = strip_epochs(v)
